@@ -326,9 +326,9 @@ impl BlobStore for MixedLenBlobStore {
         let idx = id as usize;
         if idx >= self.num_records {
             return Err(ZiporaError::not_found(format!(
-                "Record {} not found (max {})",
+                "Record {} not found (store has {} records)",
                 id,
-                self.num_records - 1
+                self.num_records
             )));
         }
 
